@@ -9,6 +9,7 @@ CONSTANTS
   BFaults <- BFaultsAll
   Ras <- RasNone
   Modes = {"call", "exec"}
+  RunGaps <- GapsNone
   NRuns = 1
   Configs <- ConfigsC13
   RecordHist = FALSE
